@@ -57,3 +57,189 @@ def topoSort (g : Graph) : Option (List Nat) := kahn g (g.nodes.length + 1) g.no
 #eval checkOrder ⟨[1,2,3,4], [(3,1),(1,2),(4,2)]⟩ [3,4,1,2]
 
 end Vm.Topo
+
+namespace Vm.Topo
+
+theorem ready_sub (g : Graph) (rem : List Nat) : (ready g rem).Sublist rem := List.filter_sublist
+
+theorem ready_spec (g : Graph) (rem : List Nat) {v : Nat} (hv : v ∈ ready g rem) :
+    v ∈ rem ∧ ∀ e ∈ g.edges, e.2 = v → e.1 ∉ rem := by
+  simp only [ready, List.mem_filter, List.all_eq_true, Bool.or_eq_true, bne_iff_ne, ne_eq,
+    Bool.not_eq_true', List.contains_eq_mem, decide_eq_false_iff_not] at hv
+  refine ⟨hv.1, fun e he hev => ?_⟩
+  rcases hv.2 e he with h | h
+  · exact absurd hev h
+  · exact h
+
+/-- loop invariant of Kahn's algorithm -/
+structure Inv (g : Graph) (rem acc : List Nat) : Prop where
+  accN : acc.Nodup
+  remN : rem.Nodup
+  disj : ∀ v, v ∈ acc → v ∉ rem
+  cover : ∀ v, v ∈ g.nodes ↔ (v ∈ acc ∨ v ∈ rem)
+  fwd : ∀ e ∈ g.edges, e.2 ∈ acc → e.1 ∈ acc ∧ idx acc e.1 < idx acc e.2
+
+theorem inv_step (g : Graph) (hE : ∀ e ∈ g.edges, e.1 ∈ g.nodes ∧ e.2 ∈ g.nodes)
+    (rem acc : List Nat) (h : Inv g rem acc) :
+    Inv g (rem.filter (fun v => !(ready g rem).contains v)) (acc ++ ready g rem) := by
+  have hsub := ready_sub g rem
+  have hrN : (ready g rem).Nodup := h.remN.sublist hsub
+  refine ⟨?_, h.remN.sublist List.filter_sublist, ?_, ?_, ?_⟩
+  · rw [List.nodup_append]
+    refine ⟨h.accN, hrN, fun a ha b hb hab => ?_⟩
+    subst hab
+    exact h.disj a ha (hsub.subset hb)
+  · intro v hv hv'
+    simp only [List.mem_filter, Bool.not_eq_true', List.contains_eq_mem, decide_eq_false_iff_not] at hv'
+    rcases List.mem_append.mp hv with ha | hr
+    · exact h.disj v ha hv'.1
+    · exact hv'.2 hr
+  · intro v
+    rw [h.cover v]
+    simp only [List.mem_append, List.mem_filter, Bool.not_eq_true', List.contains_eq_mem, decide_eq_false_iff_not]
+    constructor
+    · rintro (ha | hr)
+      · exact Or.inl (Or.inl ha)
+      · by_cases hv : v ∈ ready g rem
+        · exact Or.inl (Or.inr hv)
+        · exact Or.inr ⟨hr, hv⟩
+    · rintro ((ha | hr) | ⟨hr, _⟩)
+      · exact Or.inl ha
+      · exact Or.inr (hsub.subset hr)
+      · exact Or.inr hr
+  · intro e he h2
+    simp only [idx, List.idxOf_append]
+    rcases List.mem_append.mp h2 with ha | hr
+    · obtain ⟨h1, hlt⟩ := h.fwd e he ha
+      refine ⟨List.mem_append_left _ h1, ?_⟩
+      simp only [h1, ha, if_true]
+      exact hlt
+    · obtain ⟨hrem, hpred⟩ := ready_spec g rem hr
+      have h1rem : e.1 ∉ rem := hpred e he rfl
+      have h1acc : e.1 ∈ acc := by
+        rcases (h.cover e.1).mp (hE e he).1 with ha | hr'
+        · exact ha
+        · exact absurd hr' h1rem
+      have h2acc : e.2 ∉ acc := fun ha => h.disj _ ha hrem
+      refine ⟨List.mem_append_left _ h1acc, ?_⟩
+      simp only [h1acc, h2acc, if_true, if_false]
+      have := List.idxOf_lt_length_of_mem h1acc
+      omega
+
+theorem kahn_inv (g : Graph) (hE : ∀ e ∈ g.edges, e.1 ∈ g.nodes ∧ e.2 ∈ g.nodes) :
+    ∀ (fuel : Nat) (rem acc o : List Nat), Inv g rem acc → kahn g fuel rem acc = some o → Inv g [] o := by
+  intro fuel
+  induction fuel with
+  | zero => intro _ _ _ _ h; simp [kahn] at h
+  | succ f ih =>
+    intro rem acc o hinv hk
+    cases rem with
+    | nil => simp only [kahn, Option.some.injEq] at hk; subst hk; exact hinv
+    | cons r rs =>
+      simp only [kahn] at hk
+      split at hk
+      · cases hk
+      · exact ih _ _ o (inv_step g hE (r :: rs) acc hinv) hk
+
+/-- the model sort is sound: whenever it returns an order, the certified checker accepts it -/
+theorem kahn_sound (g : Graph) (hN : g.nodes.Nodup)
+    (hE : ∀ e ∈ g.edges, e.1 ∈ g.nodes ∧ e.2 ∈ g.nodes) (o : List Nat)
+    (h : topoSort g = some o) : checkOrder g o = true := by
+  have h0 : Inv g g.nodes [] :=
+    ⟨List.nodup_nil, hN, by simp, by simp, by simp⟩
+  have hinv := kahn_inv g hE _ _ _ o h0 h
+  simp only [checkOrder, decide_eq_true_eq]
+  refine ⟨hinv.accN, fun v hv => ?_, fun v hv => ?_, fun e he => ?_⟩
+  · rcases (hinv.cover v).mp hv with h | h
+    · exact h
+    · simp at h
+  · exact (hinv.cover v).mpr (Or.inl hv)
+  · have h2 : e.2 ∈ o := by
+      rcases (hinv.cover e.2).mp (hE e he).2 with h | h
+      · exact h
+      · simp at h
+    exact (hinv.fwd e he h2).2
+
+/-- hence: the model refuses every cyclic graph -/
+theorem kahn_cycle_none (g : Graph) (hN : g.nodes.Nodup)
+    (hE : ∀ e ∈ g.edges, e.1 ∈ g.nodes ∧ e.2 ∈ g.nodes) {u : Nat} (p : Path g u u) :
+    topoSort g = none := by
+  cases h : topoSort g with
+  | none => rfl
+  | some o =>
+    have := kahn_sound g hN hE o h
+    rw [cycle_no_order g o p] at this
+    cases this
+
+end Vm.Topo
+
+namespace Vm.Topo
+
+/-- a list has an element of minimal rank -/
+theorem exists_min_rank (rank : Nat → Nat) : ∀ (l : List Nat), l ≠ [] → ∃ v ∈ l, ∀ w ∈ l, rank v ≤ rank w := by
+  intro l
+  induction l with
+  | nil => intro h; exact absurd rfl h
+  | cons a as ih =>
+    intro _
+    cases as with
+    | nil => exact ⟨a, List.mem_cons_self, fun w hw => by simp at hw; subst hw; exact Nat.le_refl _⟩
+    | cons b bs =>
+      obtain ⟨v, hv, hmin⟩ := ih (by simp)
+      by_cases h : rank a ≤ rank v
+      · refine ⟨a, List.mem_cons_self, fun w hw => ?_⟩
+        rcases List.mem_cons.mp hw with e | e
+        · subst e; exact Nat.le_refl _
+        · exact Nat.le_trans h (hmin w e)
+      · refine ⟨v, List.mem_cons_of_mem _ hv, fun w hw => ?_⟩
+        rcases List.mem_cons.mp hw with e | e
+        · subst e; omega
+        · exact hmin w e
+
+/-- if some rank function is strictly increasing along every edge, a non-empty remainder has a ready node -/
+theorem ready_ne_nil (g : Graph) (rank : Nat → Nat) (hr : ∀ e ∈ g.edges, rank e.1 < rank e.2)
+    (rem : List Nat) (hne : rem ≠ []) : ready g rem ≠ [] := by
+  obtain ⟨v, hv, hmin⟩ := exists_min_rank rank rem hne
+  have : v ∈ ready g rem := by
+    simp only [ready, List.mem_filter, List.all_eq_true, Bool.or_eq_true, bne_iff_ne, ne_eq,
+      Bool.not_eq_true', List.contains_eq_mem, decide_eq_false_iff_not]
+    refine ⟨hv, fun e he => ?_⟩
+    by_cases hev : e.2 = v
+    · right
+      intro h1
+      have := hmin e.1 h1
+      have := hr e he
+      rw [hev] at this; omega
+    · exact Or.inl hev
+  intro h; rw [h] at this; cases this
+
+theorem filter_ready_lt (g : Graph) (rem : List Nat) (h : ready g rem ≠ []) :
+    (rem.filter (fun v => !(ready g rem).contains v)).length < rem.length := by
+  obtain ⟨v, hv⟩ := List.exists_mem_of_ne_nil _ h
+  have hvrem : v ∈ rem := (ready_sub g rem).subset hv
+  apply List.length_filter_lt_length_iff_exists.mpr
+  exact ⟨v, hvrem, by simp [hv]⟩
+
+theorem kahn_total (g : Graph) (rank : Nat → Nat) (hr : ∀ e ∈ g.edges, rank e.1 < rank e.2) :
+    ∀ (fuel : Nat) (rem acc : List Nat), rem.length < fuel → ∃ o, kahn g fuel rem acc = some o := by
+  intro fuel
+  induction fuel with
+  | zero => intro _ _ h; omega
+  | succ f ih =>
+    intro rem acc hlen
+    cases rem with
+    | nil => exact ⟨acc, by simp [kahn]⟩
+    | cons r rs =>
+      have hne := ready_ne_nil g rank hr (r :: rs) (by simp)
+      have hlt := filter_ready_lt g (r :: rs) hne
+      simp only [kahn]
+      rw [if_neg (by simpa using hne)]
+      exact ih _ _ (by omega)
+
+/-- completeness relative to the checker: if any dependency-respecting order exists, the model sort returns one;
+    together with `kahn_sound`: it refuses exactly when no such order exists -/
+theorem kahn_complete (g : Graph) (o : List Nat) (h : checkOrder g o = true) : ∃ o', topoSort g = some o' := by
+  have hs := (checkOrder_sound g o h).2.2
+  exact kahn_total g (idx o) (fun e he => hs e.1 e.2 he) _ _ _ (Nat.lt_succ_self _)
+
+end Vm.Topo
